@@ -210,18 +210,38 @@ def inline_new_helpers(mod, pinned):
             st = _stmt_of(call)
             if st is None:
                 continue
-            binding = _bind_args(helper, call, key[0] == "self")
+            static = any(isinstance(d, ast.Name) and d.id == "staticmethod" for d in helper.decorator_list)
+            binding = _bind_args(helper, call, key[0] == "self" and not static)
             if binding is None:
                 continue
             body = [s for s in helper.body if not _is_docstring(s)]
             rets = _returns(helper)
             hlocals = _assigned_names(helper)
             host = _enclosing_fn(call)
+            # a parameter the helper rebinds cannot be substituted by its argument: it becomes a local of the host, initialised with the argument
+            # ('return helper(p, ...)' with the argument being the host's own, now dead, variable p needs not even that)
+            rebound = sorted(hlocals & set(binding))
+            tail_call = isinstance(st, ast.Return) and st.value is call
+            identity = set(p for p in rebound if tail_call and isinstance(binding[p], ast.Name) and binding[p].id == p)
+            if any(isinstance(x, ast.Name) and x.id in hlocals and not (x is v and p in identity) for p, v in binding.items() for x in ast.walk(v)):
+                continue          # an argument reads a name the helper assigns: leave alone
             if host is not None:
                 if id(host) not in host_names:
                     host_names[id(host)] = _assigned_names(host) | set(alpha._params(host))
-                if hlocals & host_names[id(host)]:
+                if (hlocals - identity) & host_names[id(host)]:
                     continue      # name capture: leave alone
+            pre_assign = []
+            for p_ in rebound:
+                if p_ in identity:
+                    binding.pop(p_)
+                    continue
+                pre_assign.append(ast.Assign(targets=[ast.Name(id=p_, ctx=ast.Store())], value=_clone(binding.pop(p_)), lineno=st.lineno, col_offset=0))
+            if pre_assign:
+                if _helper_expr(helper) is not None:
+                    continue
+                for pa in pre_assign:
+                    ast.fix_missing_locations(pa)
+                body = pre_assign + body
             lst, i = _block_of(st)
             if lst is None:
                 continue
@@ -760,3 +780,76 @@ def normalise(mod):
         except Exception:
             pass
     return rep
+
+
+def desugar_list_comprehension(fn, stmt):
+    """View transformation of one statement of ``fn``:  R = [E for T in G if C]  ->  R = []; for T in G: if C: R.append(E)
+    where G may be a local bound exactly once to a generator expression that is consumed only here (the two are fused:
+    for t in IT: T = elt; ...).  Refuses (returns False) when a comprehension variable is also a name of the function, so the
+    loop variables of the written-out form cannot clobber anything.  Element-by-element evaluation order is unchanged."""
+    lst, i = _block_of(stmt)
+    if lst is None or not (isinstance(stmt, ast.Assign) and len(stmt.targets) == 1 and isinstance(stmt.targets[0], ast.Name) and isinstance(stmt.value, ast.ListComp)):
+        return False
+    lc = stmt.value
+    if len(lc.generators) != 1 or lc.generators[0].is_async:
+        return False
+    g = lc.generators[0]
+    res = stmt.targets[0].id
+    inside = set(id(x) for x in ast.walk(stmt))
+    own = set(x.id for x in _own_stmt_nodes(fn) if isinstance(x, ast.Name) and isinstance(x.ctx, ast.Store) and id(x) not in inside) | set(alpha._params(fn))
+    tnames = set(x.id for x in ast.walk(g.target) if isinstance(x, ast.Name))
+    inner = None
+    gen_def = None
+    if isinstance(g.iter, ast.GeneratorExp) and len(g.iter.generators) == 1 and not g.iter.generators[0].is_async:
+        inner = g.iter
+        tnames |= set(x.id for x in ast.walk(inner.generators[0].target) if isinstance(x, ast.Name))
+    elif isinstance(g.iter, ast.Name):
+        nm = g.iter.id
+        stores = [x for x in _own_stmt_nodes(fn) if isinstance(x, ast.Name) and x.id == nm and isinstance(x.ctx, (ast.Store, ast.Del))]
+        loads = [x for x in ast.walk(fn) if isinstance(x, ast.Name) and x.id == nm and isinstance(x.ctx, ast.Load)]
+        if len(stores) == 1 and len(loads) == 1:
+            d = parent(stores[0])
+            dl, di = _block_of(d) if isinstance(d, ast.Assign) else (None, None)
+            if dl is lst and di == i - 1 and isinstance(d.value, ast.GeneratorExp) and len(d.value.generators) == 1 and not d.value.generators[0].is_async:
+                inner = d.value
+                gen_def = d
+                tnames |= set(x.id for x in ast.walk(inner.generators[0].target) if isinstance(x, ast.Name))
+    if tnames & own or res in tnames:
+        return False
+
+    def guarded(ifs, body):
+        for t in reversed(ifs):
+            body = [ast.If(test=_clone(t), body=body, orelse=[])]
+        return body
+    app = ast.Expr(value=ast.Call(func=ast.Attribute(value=ast.Name(id=res, ctx=ast.Load()), attr="append", ctx=ast.Load()), args=[_clone(lc.elt)], keywords=[]))
+    body = guarded(g.ifs, [app])
+    if inner is not None:
+        ig = inner.generators[0]
+        bind = ast.Assign(targets=[_store(_clone(g.target))], value=_clone(inner.elt))
+        loop = ast.For(target=_store(_clone(ig.target)), iter=_clone(ig.iter), body=guarded(ig.ifs, [bind] + body), orelse=[])
+    else:
+        loop = ast.For(target=_store(_clone(g.target)), iter=_clone(g.iter), body=body, orelse=[])
+    init = ast.Assign(targets=[ast.Name(id=res, ctx=ast.Store())], value=ast.List(elts=[], ctx=ast.Load()))
+    new = [init, loop]
+    for n in new:
+        ast.copy_location(n, stmt)
+        for x in ast.walk(n):
+            if not hasattr(x, "lineno") or True:
+                x.lineno = stmt.lineno
+                x.end_lineno = getattr(stmt, "end_lineno", stmt.lineno)
+                x.col_offset = getattr(stmt, "col_offset", 0)
+                x.end_col_offset = getattr(stmt, "end_col_offset", 0)
+    if gen_def is not None:
+        lst[i - 1:i + 1] = new
+    else:
+        lst[i:i + 1] = new
+    ast.fix_missing_locations(fn)
+    set_parents(fn)
+    return True
+
+
+def _store(t):
+    for x in ast.walk(t):
+        if isinstance(x, (ast.Name, ast.Tuple, ast.List, ast.Starred, ast.Attribute, ast.Subscript)) and hasattr(x, "ctx"):
+            x.ctx = ast.Store()
+    return t
